@@ -73,12 +73,21 @@ namespace bloch::runtime {
     int QasmSimulator::allocateQubit() {
         // Grow the state by a factor of two, keeping existing amplitudes
         // in the |...0> subspace and zeroing the |...1> subspace.
+        // The doubled state is obtained first: if it does not fit in memory the simulator is
+        // left as it was and the run ends with a diagnostic instead of a bare std::bad_alloc.
+        std::vector<std::complex<double>> newState;
+        try {
+            newState.resize(m_state.size() * 2);
+        } catch (const std::exception&) {
+            throw BlochError(ErrorCategory::Runtime, 0, 0,
+                             "not enough memory to simulate " + std::to_string(m_qubits + 1) +
+                                 " qubits");
+        }
         int index = m_qubits++;
         if (index >= static_cast<int>(m_measured.size()))
             m_measured.resize(index + 1, false);
         else
             m_measured[index] = false;
-        std::vector<std::complex<double>> newState(m_state.size() * 2);
         for (size_t i = 0; i < m_state.size(); ++i) {
             newState[i] = m_state[i];
             newState[i + m_state.size()] = 0;
